@@ -135,7 +135,7 @@ class LockGen:
         c = self.var(t, 'Comp', self.rng.randrange(2))
         r = self.rng.randrange(7)
         if r == 0:
-            ops += [f'getver {o} {lk}', f'verify {o}', f'gver {o}']
+            ops += [f'getver {o} {lk}', f'bool {o}', f'verify {o}', f'gver {o}']
         elif r == 1:
             ops += [f'getver {o} {lk}', f'verify {o}', f'verify {o}']
         elif r in (2, 3, 4):
@@ -289,6 +289,64 @@ def samelock_scenario(comp, rng, sid):
     return '\n'.join(lines)
 
 
+def race_scenario(comp, rng, sid):
+    """an explicit schedule prefix parks thread A after k of its quanta - i.e. between the load and the CAS of an
+    acquisition, an upgrade, a TryLock*, PrepareRead's fallback ... - lets thread B run m quanta of short sections
+    that change the lock word, and resumes A: drives the CAS-failure / re-check branches that free-running random
+    schedules rarely reach.  A third thread keeps X for a while at the start in half of the Optimistic cases, so that
+    PrepareRead is in its fallback when it is parked."""
+    g = LockGen(comp, rng, nlocks=1)
+    a_ops, b_ops, w_ops = [], [], []
+    kind = rng.choice(['S', 'SIX', 'X', 'upg', 'upg'] + (['try', 'try', 'prep', 'prep', 'prep'] if comp == 'opt' else []))
+    s0, i0, x0 = g.var(0, 'S'), g.var(0, 'SIX'), g.var(0, 'X')
+    if kind in ('S', 'SIX', 'X'):
+        v = g.var(0, kind)
+        a_ops = [f'lock {kind} {v} 0', 'payrd 0', f'dtor {v}']
+    elif kind == 'upg':
+        a_ops = [f'lock SIX {i0} 0', f'upg {x0} {i0}', f'bool {x0}', f'paywr 0 {g.nextval()}', f'dtor {x0}']
+    elif kind == 'try':
+        o = g.var(0, 'Opt')
+        m = rng.choice(['S', 'SIX', 'X'])
+        v = g.var(0, m)
+        a_ops = [f'getver {o} 0', f'try {m} {v} {o}', f'bool {v}', f'dtor {v}']
+    else:
+        c = g.var(0, 'Comp')
+        a_ops = [f'prep {c} 0', f'bool {c}', f'cverify {c}', 'payrd 0', f'cverify {c}', f'dtor {c}']
+    sb, xb = g.var(1, 'S'), g.var(1, 'X')
+    for _ in range(rng.randrange(2, 6)):
+        if comp == 'mcs' or rng.random() < 0.7:
+            b_ops += [f'lock S {sb} 0', f'dtor {sb}']
+        else:
+            b_ops += [f'lock X {xb} 0', f'paywr 0 {g.nextval()}', f'dtor {xb}']
+    sched = []
+    writer = comp == 'opt' and kind in ('prep', 'try') and rng.random() < 0.6
+    if writer:
+        xw = g.var(2, 'X')
+        hold = rng.choice([2, 4, 6, 10])
+        w_ops = [f'lock X {xw} 0'] + [f'paywr 0 {g.nextval()}' for _ in range(hold)] + [f'dtor {xw}']
+        sched += [2] * 3                       # the writer takes X
+        sched += [0] * rng.randrange(1, 8)     # A starts: optimistic attempts see X
+        sched += [2] * (2 * hold + 2)          # the writer finishes
+    if writer and kind == 'prep':
+        sched += [0] * rng.choice([1, 1, 1, 2, 3])   # the fallback's load sees the free word; its CAS is next
+    else:
+        sched += [0] * rng.randrange(1, 7)     # A up to somewhere inside its operation
+    sched += [1] * rng.randrange(1, 9)         # B changes the word
+    sched += [0] * rng.randrange(0, 3)
+    sched += [1] * rng.randrange(0, 6)
+    progs = [a_ops, b_ops, w_ops]
+    pt = 3
+    px = g.var(pt, 'X')
+    progs.append([f'lock X {px} 0', f'dtor {px}'])
+    kinds = ','.join(g.block * 4)
+    lines = [f'SCEN {sid} comp={comp} nlocks=1 kinds={kinds} policy={rng.choice([0, 1, 2])} seed={rng.randrange(1, 1 << 30)} '
+             f'max_steps=3000 late={pt}']
+    lines += ['T ' + ';'.join(p) for p in progs]
+    lines.append('S ' + ' '.join(map(str, sched)))
+    lines.append('GO')
+    return '\n'.join(lines)
+
+
 def make_scenarios(comp, seed, count, prefix):
     rng = random.Random(f'{comp}-{seed}')
     out = []
@@ -299,6 +357,9 @@ def make_scenarios(comp, seed, count, prefix):
             continue
         if r0 < 0.36:
             out.append(samelock_scenario(comp, rng, f'{prefix}{i}'))
+            continue
+        if r0 < 0.48:
+            out.append(race_scenario(comp, rng, f'{prefix}{i}'))
             continue
         nlocks = 2 if rng.random() < 0.35 else 1
         g = LockGen(comp, rng, nlocks=nlocks)
